@@ -393,11 +393,12 @@ def _mode_v(ctx):
     free = [n for n in range(1, 128) if n not in ids]
     noise_plan = []
     for k in range(nnoise):
-        kind = ctx.choice(4, "nkind")
+        kind = ctx.choice(5, "nkind")
         other = free[ctx.choice(len(free), "nid")]
         own = ids[ctx.choice(len(ids), "nn")]
         can_id, data = ((0x180 + other, bytes([k & 0xFF] * (1 + ctx.choice(8, "nl")))), (0x80 + own, bytes([0x10, 0x81, 1, 0, 0, 0, 0, k & 0xFF])),
-                        (0x700 + own, bytes([5])), (0x580 + other, bytes([0x4F, 0, 0x20, 0, k & 0xFF, 0, 0, 0])))[kind]
+                        (0x700 + own, bytes([5])), (0x580 + other, bytes([0x4F, 0, 0x20, 0, k & 0xFF, 0, 0, 0])),
+                        (0x000, bytes([(0x81, 0x82, 0x01, 0x80)[k % 4], other])))[kind]
         noise_plan.append((ctx.choice(40, "nt") * 0.0005, can_id, data))
     if nnoise:
         ctx.probe("unrelated-traffic")
@@ -503,9 +504,12 @@ def _mode_t(ctx):
 
     def emit(k):
         def fn():
-            kind = ctx.choice(5, "nkind")
+            kind = ctx.choice(6, "nkind")
             other = free[ctx.choice(len(free), "nid")]
-            if kind == 0:
+            if kind == 5:
+                # an NMT command for a node that is not in use (another master starting or resetting a neighbour)
+                noise.send(0x000, bytes([(0x81, 0x82, 0x01, 0x80, 0x02)[ctx.choice(5, "ncs")], other]))
+            elif kind == 0:
                 noise.send(0x180 + other, bytes([k & 0xFF] * (1 + ctx.choice(8, "nl"))))
             elif kind == 1:
                 noise.send(0x80 + ids[ctx.choice(len(ids), "nn")], bytes([0x10, 0x81, 1, 0, 0, 0, 0, k & 0xFF]))
